@@ -190,6 +190,13 @@ func clsFixed() []errExpr {
 	}
 	add(nats.ErrKeyNotFound, leafExpr(nats.ErrKeyNotFound), "nats-keynotfound")
 	add(nats.ErrKeyExists, leafExpr(nats.ErrKeyExists), "nats-keyexists-sentinel")
+	add(fmt.Errorf("create: %w", nats.ErrKeyExists), fmt.Sprintf("wrap %s - %s", hx("create: "), leafExpr(nats.ErrKeyExists)), "nats-keyexists-sentinel")
+	// the client's permission errors (connection-level authorization, subject permissions, expired / revoked credentials)
+	for _, e := range []error{nats.ErrAuthorization, nats.ErrPermissionViolation, nats.ErrAuthExpired, nats.ErrAuthRevoked} {
+		add(e, leafExpr(e), "nats-permission")
+		add(fmt.Errorf("kv: %w", e), fmt.Sprintf("wrap %s - %s", hx("kv: "), leafExpr(e)), "nats-permission")
+	}
+	add(nats.ErrBucketNotFound, leafExpr(nats.ErrBucketNotFound), "nats-bucket-not-found")
 	w := fmt.Errorf("ctx: %w", leader.NewTimeoutError("op", time.Second, errors.New("key not found")))
 	add(w, fmt.Sprintf("wrap %s - to1 %s %s leaf %s -", hx("ctx: "), hx("op"), hx("1s"), hx("key not found")), "wrapped-timeout-with-permanent-text")
 	ve := leader.NewValidationError("Bucket", "", "bucket name is required")
@@ -275,6 +282,14 @@ func runCls(rep *Report, rng *rand.Rand, n int) error {
 			case "nats-update-conflict", "nats-create-exists":
 				if !p {
 					rep.violation(Finding{Property: "C15", Clause: "nats-conflict-permanent", Input: in, Impl: impl})
+				}
+			case "nats-keyexists-sentinel":
+				if !p {
+					rep.violation(Finding{Property: "C15", Clause: "nats-create-exists-permanent", Input: in, Impl: impl})
+				}
+			case "nats-permission", "nats-bucket-not-found":
+				if !p {
+					rep.violation(Finding{Property: "C15", Clause: "nats-permission-bucket-permanent", Input: in, Impl: impl})
 				}
 			case "nats-transient":
 				if !t {
